@@ -169,7 +169,17 @@ func c16Run(c Case) (Result, error) {
 			firstUse = verdictClass(ok, e2)
 		}
 	}
-	pkBytes := pk.Encode()
+	pkBytes := append([]byte{}, pk.Encode()...)
+	// encodings handed out are the caller's values: overwriting them must not reach the key (BLSGeneratePOP and
+	// BLSVerifyPOP hash the key's encoding)
+	for _, e := range [][]byte{pk.Encode(), pk.EncodeCompressed(), sk.PublicKey().Encode(), sk.Encode()} {
+		for i := range e {
+			e[i] ^= 0x5a
+		}
+	}
+	if !bytes.Equal(pk.Encode(), pkBytes) {
+		return Result{}, implViolation("overwriting a slice returned by Encode() changed the key's encoding: %x, was %x", pk.Encode(), pkBytes)
+	}
 	one, _ := crypto.DecodePrivateKey(crypto.BLSBLS12381, fixed(big.NewInt(1), 32))
 	ref := popHasherRef()
 	hEnc, _ := one.Sign(pkBytes, ref) // H_pop(enc pk) as a point
